@@ -85,6 +85,11 @@ ReqReasons(e, x, d) ==
     \cup If(~SafetyOrderP(x, d), "SafetyOrder")
     \cup If(~CustomAllowSkipsSafetyP(x, d), "CustomAllowSkipsSafety")
     \cup If(~NothingFromNothingP(x, d), "verdict attributed to a source that has no such rule")
+    \* `ctie`: the profile's own allow rule is at least as specific (number of modifiers) as every
+    \* shared allow rule for the name; then it is the deciding one ("custom rules first", the
+    \* documented order of composite.Filter) and the safety filters must not apply
+    \cup If(e.ctie /\ Enabled(x) /\ RewriteSlots(x) = {} /\ d # D("allowed", 1),
+            "the profile's own allow rule ties with (or outranks) the shared allow rules but did not decide")
     \cup ReqDetail(e, e.req)
 
 RespReasons(e, x, r) ==
